@@ -74,6 +74,26 @@ def run(tier, seed):
                     for b in links[:4]:
                         up_n = "/".join([".."] * (a.count("/") + 1))
                         paths += ["/%s/%s/%s/secret.txt" % (a, up_n, b), "/%s/%s/%s" % (a, up_n, b), "/%s/x/../%s/%s" % (a, up_n, b)]
+                # reachability, judged directly: a regular, decodable, small file reached through real directories only is served -
+                # with its OWN content - when requested by its own path, every byte of every name percent-encoded
+                kinds = {rel: k for rel, k, p in nodes}
+                for rel, kind, payload in nodes:
+                    if kind != "f" or not rel.startswith("root/"): continue
+                    segs_ = fstree.comps(rel)[1:]
+                    anc = ["root/" + "/".join(segs_[:i]) for i in range(1, len(segs_))]
+                    if any(kinds.get(a) != "d" for a in anc) or len(payload) > 64 or fstree.text_mode(payload) is None: continue
+                    if any(len(x.encode("utf-8")) > 255 for x in segs_): continue
+                    own = "/" + "/".join(fstree.pct(x, full=True) for x in segs_)
+                    try:
+                        r_ = h.handle(GeminiRequest.from_line("gemini://h" + own))
+                        got_ = (r_.status, r_.body if isinstance(r_.body, str) else (r_.body or b"").decode("utf-8", "replace"))
+                    except Exception as e_:
+                        got_ = ("raise", type(e_).__name__)
+                    res.evaluations += 1; res.count("reachability")
+                    if got_ != (20, fstree.text_mode(payload)):
+                        res.violations.append({"clause": "every regular file inside the root is served when requested by its own path (percent-encoded)", "signature": "C02:reachability",
+                                               "case": {"file": rel, "request_path": own, "tree": [[a, b_, (c.decode("utf-8", "replace") if isinstance(c, bytes) else c)] for a, b_, c in nodes][:40]},
+                                               "trace": {"expected": [20, fstree.text_mode(payload)], "received": [str(got_[0]), str(got_[1])[:120]]}})
                 for up in paths:
                     try:
                         req = GeminiRequest.from_line("gemini://h" + up)
